@@ -4,7 +4,8 @@
 set -e
 export GOFLAGS=-mod=mod GOPROXY=off GOSUMDB=off GOTOOLCHAIN=local CGO_ENABLED=1
 REPO=${VERIF_REPO:-/repo}
-H=/verif/harness
+ROOT=$(cd "$(dirname "$0")/.." && pwd)
+H=$ROOT/harness
 cd $H
 {
   echo "module verif/harness"
